@@ -1,9 +1,10 @@
 //! C37: encryption round-trips and is bound to its context (group keys, sealed group keys, sealed PSK seeds,
 //! APQ topic keys and topic messages).
 use aranya_crypto::{
-    Context, Encap, EncryptedGroupKey, EncryptionKey, GroupKey, SigningKey,
+    Context, Encap, EncryptedGroupKey, EncryptionKey, EncryptionPublicKey, Engine as _, GroupKey, SigningKey, VerifyingKey,
     apq::{
-        EncryptedTopicKey, ReceiverSecretKey, Sender, SenderSecretKey, SenderSigningKey, Topic, TopicKey, Version,
+        EncryptedTopicKey, ReceiverPublicKey, ReceiverSecretKey, Sender, SenderPublicKey, SenderSecretKey, SenderSigningKey,
+        SenderVerifyingKey, Topic, TopicKey, Version,
     },
     policy::{CmdId, GroupId, PolicyId},
     tls::{CipherSuiteId, EncryptedPskSeed, PskSeed},
@@ -12,7 +13,7 @@ use proptest::prelude::*;
 use serde::{Deserialize, Serialize};
 use vcommon::{CaseInfo, CheckResult, Ctx, Failure, Report, ensure, idx};
 
-use crate::util::{CS, SeedRng, fill, flip};
+use crate::util::{CS, Eng, SeedRng, engine, fill, flip};
 
 fn f<E: std::fmt::Display>(sig: &'static str) -> impl Fn(E) -> Failure {
     move |e| Failure::new(sig, e.to_string())
@@ -733,6 +734,629 @@ fn hcase(prim: Prim) -> impl Strategy<Value = HCase> {
         .prop_map(|(seed, group, version, topic, variants)| HCase { seed, group, version, topic, variants })
 }
 
+// ------------------------------------------------------------------------------------------------
+// stateful, symmetric: several objects holding the same key material, several contexts, generated order
+
+/// How a further object holding the same key material is obtained from an existing one.
+#[derive(Clone, Debug, Serialize, Deserialize)]
+enum Src {
+    Clone(u16),
+    /// sealed to a recipient with seal_group_key / seal_topic_key and recovered with open_group_key / open_topic_key
+    Sealed(u16),
+    /// Engine::wrap + Engine::unwrap (group keys; topic keys are not wrappable and take the sealed route)
+    Wrapped(u16),
+}
+
+#[derive(Clone, Debug, Serialize, Deserialize)]
+struct CtxSpec {
+    label: String,
+    parent: [u8; 32],
+    /// which author verifying key (group) / sender signing key (topic)
+    sign: bool,
+    /// which sender encryption key (topic only)
+    enc: bool,
+}
+
+#[derive(Clone, Debug, Serialize, Deserialize)]
+enum TOp {
+    Seal { obj: u16, ctx: u16, pt: Vec<u8> },
+    Open { obj: u16, ct: u16 },
+    OpenWrongCtx { obj: u16, ct: u16, ctx: u16 },
+    OpenFlipped { obj: u16, ct: u16, flips: Vec<(u16, u8)> },
+    OpenOtherKey { ct: u16 },
+    Copy(Src),
+}
+
+#[derive(Clone, Debug, Serialize, Deserialize)]
+struct TCase {
+    seed: u64,
+    version: u32,
+    topic: [u8; 16],
+    ctxs: Vec<CtxSpec>,
+    init: Vec<Src>,
+    ops: Vec<TOp>,
+}
+
+enum KObj {
+    G(GroupKey<CS>),
+    T(TopicKey<CS>),
+}
+
+struct SymKeys {
+    sign_g: Vec<VerifyingKey<CS>>,
+    ssk: Vec<SenderVerifyingKey<CS>>,
+    sek: Vec<SenderPublicKey<CS>>,
+    version: Version,
+    topic: Topic,
+}
+
+fn st_overhead(k: &KObj) -> usize {
+    match k {
+        KObj::G(k) => k.overhead(),
+        KObj::T(k) => k.overhead(),
+    }
+}
+
+fn st_seal(k: &KObj, keys: &SymKeys, rng: &Eng, cx: &CtxSpec, pt: &[u8]) -> Result<Vec<u8>, Failure> {
+    let mut dst = vec![0u8; pt.len() + st_overhead(k)];
+    match k {
+        KObj::G(k) => k
+            .seal(rng, &mut dst, pt, Context { label: &cx.label, parent: CmdId::from_bytes(cx.parent), author_sign_pk: &keys.sign_g[usize::from(cx.sign)] })
+            .map_err(f("seal failed"))?,
+        KObj::T(k) => k
+            .seal_message(rng, &mut dst, pt, keys.version, &keys.topic, &Sender { enc_key: &keys.sek[usize::from(cx.enc)], sign_key: &keys.ssk[usize::from(cx.sign)] })
+            .map_err(f("seal failed"))?,
+    }
+    Ok(dst)
+}
+
+fn st_open(k: &KObj, keys: &SymKeys, cx: &CtxSpec, ct: &[u8]) -> Result<Vec<u8>, String> {
+    let mut dst = vec![0u8; ct.len().saturating_sub(st_overhead(k))];
+    match k {
+        KObj::G(k) => k
+            .open(&mut dst, ct, Context { label: &cx.label, parent: CmdId::from_bytes(cx.parent), author_sign_pk: &keys.sign_g[usize::from(cx.sign)] })
+            .map_err(|e| e.to_string())?,
+        KObj::T(k) => k
+            .open_message(&mut dst, ct, keys.version, &keys.topic, &Sender { enc_key: &keys.sek[usize::from(cx.enc)], sign_key: &keys.ssk[usize::from(cx.sign)] })
+            .map_err(|e| e.to_string())?,
+    }
+    Ok(dst)
+}
+
+fn check_sym_stateful(c: &TCase, info: &mut CaseInfo, group: bool) -> CheckResult {
+    if c.ctxs.is_empty() {
+        return Ok(());
+    }
+    let eng = engine(c.seed, 0x3701);
+    let rng = &eng;
+    let version = Version::new(c.version);
+    let topic = Topic::from(c.topic);
+    let mut keys = SymKeys { sign_g: Vec::new(), ssk: Vec::new(), sek: Vec::new(), version, topic };
+    let mut sender_sk = Vec::new();
+    for _ in 0..2 {
+        if group {
+            keys.sign_g.push(SigningKey::<CS>::new(rng).public().map_err(f("public() failed"))?);
+        } else {
+            keys.ssk.push(SenderSigningKey::<CS>::new(rng).public().map_err(f("public() failed"))?);
+            let s = SenderSecretKey::<CS>::new(rng);
+            keys.sek.push(s.public().map_err(f("public() failed"))?);
+            sender_sk.push(s);
+        }
+    }
+    // two contexts are the same context when every component the primitive binds is equal
+    let same_ctx = |a: &CtxSpec, b: &CtxSpec| {
+        if group { a.label == b.label && a.parent == b.parent && a.sign == b.sign } else { a.sign == b.sign && a.enc == b.enc }
+    };
+    let canon: Vec<usize> = (0..c.ctxs.len()).map(|i| (0..=i).find(|&j| same_ctx(&c.ctxs[j], &c.ctxs[i])).unwrap_or(i)).collect();
+    let mk = |rng: &Eng| -> Result<KObj, Failure> {
+        Ok(if group { KObj::G(GroupKey::<CS>::new(rng)) } else { KObj::T(TopicKey::<CS>::new(rng, version, &topic).map_err(f("TopicKey::new failed"))?) })
+    };
+    let mut objs = vec![mk(rng)?];
+    let other = mk(rng)?;
+    // contexts (canonical index) each object has been used with so far, in order
+    let mut hist: Vec<Vec<usize>> = vec![Vec::new()];
+    let mut how: Vec<String> = vec!["original".into()];
+    // recipient of the sealed route, created on first use
+    let mut ek: Option<EncryptionKey<CS>> = None;
+    let mut rk: Option<ReceiverSecretKey<CS>> = None;
+    let gid = GroupId::from_bytes(c.topic.repeat(2).try_into().unwrap_or([0u8; 32]));
+
+    let mut copy = |src: &Src, objs: &mut Vec<KObj>, how: &mut Vec<String>, info: &mut CaseInfo| -> CheckResult {
+        let (i, kind) = match src {
+            Src::Clone(i) => (idx(*i, objs.len()), "clone"),
+            Src::Sealed(i) => (idx(*i, objs.len()), "sealed"),
+            Src::Wrapped(i) => (idx(*i, objs.len()), if group { "wrapped" } else { "sealed" }),
+        };
+        let new = match (&objs[i], kind) {
+            (KObj::G(k), "clone") => KObj::G(k.clone()),
+            (KObj::T(k), "clone") => KObj::T(k.clone()),
+            (KObj::G(k), "wrapped") => {
+                let w = eng.wrap(k.clone()).map_err(f("wrap failed"))?;
+                KObj::G(eng.unwrap::<GroupKey<CS>>(&w).map_err(f("unwrap of a wrapped key failed"))?)
+            }
+            (KObj::G(k), _) => {
+                if ek.is_none() {
+                    ek = Some(EncryptionKey::<CS>::new(rng));
+                }
+                let e = ek.as_ref().expect("set above");
+                let (enc, ct) = e.public().map_err(f("public() failed"))?.seal_group_key(rng, k, gid).map_err(f("seal failed"))?;
+                KObj::G(e.open_group_key(&enc, ct, gid).map_err(f("round trip failed"))?)
+            }
+            (KObj::T(k), _) => {
+                if rk.is_none() {
+                    rk = Some(ReceiverSecretKey::<CS>::new(rng));
+                }
+                let r = rk.as_ref().expect("set above");
+                let (enc, ct) = r
+                    .public()
+                    .map_err(f("public() failed"))?
+                    .seal_topic_key(rng, version, &topic, &sender_sk[0], k)
+                    .map_err(f("seal failed"))?;
+                KObj::T(r.open_topic_key(version, &topic, &keys.sek[0], &enc, &ct).map_err(f("round trip failed"))?)
+            }
+        };
+        info.label(format!("copy_{kind}"));
+        how.push(format!("{kind} of #{i}"));
+        objs.push(new);
+        Ok(())
+    };
+    for s in &c.init {
+        copy(s, &mut objs, &mut how, info)?;
+        hist.push(Vec::new());
+    }
+
+    struct Ct {
+        bytes: Vec<u8>,
+        ctx: usize,
+        pt: Vec<u8>,
+        by: usize,
+    }
+    let mut cts: Vec<Ct> = Vec::new();
+    let mut divergent = 0usize;
+    let describe = |o: usize, how: &[String], hist: &[Vec<usize>]| format!("object #{o} ({}; earlier contexts {:?})", how[o], hist[o]);
+    // opening `ct` on object `o` with the right context must return the plaintext
+    let right_open = |o: usize, ct: &Ct, objs: &[KObj], how: &[String], hist: &mut Vec<Vec<usize>>, info: &mut CaseInfo, divergent: &mut usize| -> CheckResult {
+        let r = st_open(&objs[o], &keys, &c.ctxs[ct.ctx], &ct.bytes);
+        let cross = o != ct.by;
+        let with_history = hist[o].iter().any(|h| *h != ct.ctx) || hist[ct.by].iter().any(|h| *h != ct.ctx);
+        let sig = if cross { "round trip failed on another object holding the same key" } else { "round trip failed" };
+        if r.as_ref().ok() != Some(&ct.pt) {
+            return Err(Failure::new(
+                sig,
+                format!(
+                    "context #{} sealed by {}, opened by {} -> {}",
+                    ct.ctx,
+                    describe(ct.by, how, hist),
+                    describe(o, how, hist),
+                    match &r { Ok(_) => "another plaintext".to_string(), Err(e) => e.clone() }
+                ),
+            ));
+        }
+        hist[o].push(ct.ctx);
+        if cross {
+            info.label("open_cross_object");
+        }
+        if cross && with_history {
+            info.label("open_cross_object_after_other_context");
+            *divergent += 1;
+        }
+        Ok(())
+    };
+
+    for op in &c.ops {
+        match op {
+            TOp::Seal { obj, ctx, pt } => {
+                let (o, x) = (idx(*obj, objs.len()), canon[idx(*ctx, c.ctxs.len())]);
+                let bytes = st_seal(&objs[o], &keys, rng, &c.ctxs[x], pt)?;
+                ensure!(bytes.len() == pt.len() + st_overhead(&objs[o]), "ciphertext length is not plaintext + overhead", "{} vs {}", bytes.len(), pt.len());
+                hist[o].push(x);
+                cts.push(Ct { bytes, ctx: x, pt: pt.clone(), by: o });
+                info.label("op_seal");
+            }
+            TOp::Copy(s) => {
+                copy(s, &mut objs, &mut how, info)?;
+                hist.push(Vec::new());
+            }
+            _ if cts.is_empty() => info.label("op_skipped_no_ciphertext"),
+            TOp::Open { obj, ct } => {
+                let (o, ct) = (idx(*obj, objs.len()), &cts[idx(*ct, cts.len())]);
+                right_open(o, ct, &objs, &how, &mut hist, info, &mut divergent)?;
+                info.label("op_open");
+            }
+            TOp::OpenWrongCtx { obj, ct, ctx } => {
+                let (o, ct, x) = (idx(*obj, objs.len()), &cts[idx(*ct, cts.len())], canon[idx(*ctx, c.ctxs.len())]);
+                if x == ct.ctx {
+                    right_open(o, ct, &objs, &how, &mut hist, info, &mut divergent)?;
+                    info.label("op_open");
+                    continue;
+                }
+                let r = st_open(&objs[o], &keys, &c.ctxs[x], &ct.bytes);
+                ensure!(r.is_err(), "open accepted a modified ciphertext or context", "sealed under context #{}, opened under #{x} by {}", ct.ctx, describe(o, &how, &hist));
+                hist[o].push(x);
+                info.label("op_open_wrong_context_rejected");
+            }
+            TOp::OpenFlipped { obj, ct, flips } => {
+                let (o, ct) = (idx(*obj, objs.len()), &cts[idx(*ct, cts.len())]);
+                let mut b = ct.bytes.clone();
+                if !apply_flips(&mut b, flips) || b == ct.bytes {
+                    continue;
+                }
+                let r = st_open(&objs[o], &keys, &c.ctxs[ct.ctx], &b);
+                ensure!(r.is_err(), "open accepted a modified ciphertext or context", "flipped ciphertext {flips:?} opened by {}", describe(o, &how, &hist));
+                hist[o].push(ct.ctx);
+                info.label("op_open_flipped_rejected");
+            }
+            TOp::OpenOtherKey { ct } => {
+                let ct = &cts[idx(*ct, cts.len())];
+                let r = st_open(&other, &keys, &c.ctxs[ct.ctx], &ct.bytes);
+                ensure!(r.is_err(), "open accepted a modified ciphertext or context", "another key opened context #{}", ct.ctx);
+                info.label("op_open_other_key_rejected");
+            }
+        }
+    }
+    // finally every object must open every ciphertext under its own context
+    for ct in &cts {
+        for o in 0..objs.len() {
+            right_open(o, ct, &objs, &how, &mut hist, info, &mut divergent)?;
+        }
+    }
+    if divergent >= 2 {
+        info.nontrivial();
+    }
+    Ok(())
+}
+
+fn src() -> impl Strategy<Value = Src> {
+    prop_oneof![any::<u16>().prop_map(Src::Clone), any::<u16>().prop_map(Src::Sealed), any::<u16>().prop_map(Src::Wrapped)]
+}
+
+fn tcase() -> impl Strategy<Value = TCase> {
+    let cx = (
+        prop_oneof![3 => ".{0,8}", 1 => Just(String::new())],
+        prop_oneof![2 => any::<[u8; 32]>(), 1 => Just([0u8; 32]), 1 => Just([1u8; 32])],
+        any::<bool>(),
+        any::<bool>(),
+    )
+        .prop_map(|(label, parent, sign, enc)| CtxSpec { label, parent, sign, enc });
+    let small_pt = prop_oneof![3 => prop::collection::vec(any::<u8>(), 0..40), 1 => Just(Vec::new())];
+    let op = prop_oneof![
+        5 => (any::<u16>(), any::<u16>(), small_pt).prop_map(|(obj, ctx, pt)| TOp::Seal { obj, ctx, pt }),
+        5 => (any::<u16>(), any::<u16>()).prop_map(|(obj, ct)| TOp::Open { obj, ct }),
+        2 => (any::<u16>(), any::<u16>(), any::<u16>()).prop_map(|(obj, ct, ctx)| TOp::OpenWrongCtx { obj, ct, ctx }),
+        1 => (any::<u16>(), any::<u16>(), flips()).prop_map(|(obj, ct, flips)| TOp::OpenFlipped { obj, ct, flips }),
+        1 => any::<u16>().prop_map(|ct| TOp::OpenOtherKey { ct }),
+        1 => src().prop_map(TOp::Copy),
+    ];
+    (
+        any::<u64>(),
+        prop_oneof![2 => 0u32..4, 1 => any::<u32>()],
+        any::<[u8; 16]>(),
+        prop::collection::vec(cx, 2..=4),
+        prop::collection::vec(src(), 1..=3),
+        (any::<u16>(), any::<u16>(), prop::collection::vec(any::<u8>(), 0..40)),
+        prop::collection::vec(op, 3..=13),
+    )
+        .prop_map(|(seed, version, topic, ctxs, init, (obj, ctx, pt), mut ops)| {
+            // the sequence starts with a seal so that no later operation is vacuous
+            ops.insert(0, TOp::Seal { obj, ctx, pt });
+            TCase { seed, version, topic, ctxs, init, ops }
+        })
+}
+
+// ------------------------------------------------------------------------------------------------
+// stateful, HPKE-sealed secrets: several objects holding the recipient's secret key, several secrets and contexts
+
+#[derive(Clone, Debug, Serialize, Deserialize)]
+enum RSrc {
+    Clone(u16),
+    Wrapped(u16),
+}
+
+#[derive(Clone, Debug, Serialize, Deserialize)]
+struct KCtx {
+    group: [u8; 32],
+    version: u32,
+    topic: [u8; 16],
+}
+
+#[derive(Clone, Debug, Serialize, Deserialize)]
+enum KOp {
+    /// seal secret #secret; group keys under context #ctx, PSK seeds and topic keys under the context they were created for
+    Seal { secret: u16, ctx: u16 },
+    Open { recip: u16, item: u16 },
+    OpenWrongCtx { recip: u16, item: u16, ctx: u16 },
+    OpenFlipped { recip: u16, item: u16, enc: bool, flips: Vec<(u16, u8)> },
+    OpenOtherRecipient { item: u16 },
+    Copy(RSrc),
+}
+
+#[derive(Clone, Debug, Serialize, Deserialize)]
+struct KCase {
+    seed: u64,
+    ctxs: Vec<KCtx>,
+    /// one entry per secret: the context it is created for
+    secrets: Vec<u16>,
+    init: Vec<RSrc>,
+    ops: Vec<KOp>,
+}
+
+enum RObj {
+    E(EncryptionKey<CS>),
+    R(ReceiverSecretKey<CS>),
+}
+
+enum Secret {
+    G(GroupKey<CS>),
+    P(PskSeed<CS>),
+    T(TopicKey<CS>),
+}
+
+impl Secret {
+    fn id(&self) -> Result<[u8; 32], String> {
+        use aranya_crypto::Identified as _;
+        Ok(match self {
+            Secret::G(k) => *k.id().map_err(|e| e.to_string())?.as_array(),
+            Secret::P(k) => *k.id().map_err(|e| e.to_string())?.as_array(),
+            Secret::T(k) => *k.id().map_err(|e| e.to_string())?.as_array(),
+        })
+    }
+}
+
+struct HpkeEnv {
+    recip_pk_e: Option<EncryptionPublicKey<CS>>,
+    recip_pk_r: Option<ReceiverPublicKey<CS>>,
+    sender_e: Option<(EncryptionKey<CS>, EncryptionPublicKey<CS>)>,
+    sender_s: Option<(SenderSecretKey<CS>, SenderPublicKey<CS>)>,
+}
+
+fn k_seal(env: &HpkeEnv, rng: &Eng, s: &Secret, cx: &KCtx) -> Result<(Vec<u8>, Vec<u8>), Failure> {
+    let group = GroupId::from_bytes(cx.group);
+    Ok(match s {
+        Secret::G(k) => {
+            let (enc, ct) = env.recip_pk_e.as_ref().expect("recipient").seal_group_key(rng, k, group).map_err(f("seal failed"))?;
+            (enc.as_bytes().to_vec(), postcard::to_allocvec(&ct).map_err(f("ciphertext does not serialize"))?)
+        }
+        Secret::P(k) => {
+            let (se, _) = env.sender_e.as_ref().expect("sender");
+            let (enc, ct) = se.seal_psk_seed(rng, k, env.recip_pk_e.as_ref().expect("recipient"), &group).map_err(f("seal failed"))?;
+            (enc.as_bytes().to_vec(), postcard::to_allocvec(&ct).map_err(f("ciphertext does not serialize"))?)
+        }
+        Secret::T(k) => {
+            let (ss, _) = env.sender_s.as_ref().expect("sender");
+            let (enc, ct) = env
+                .recip_pk_r
+                .as_ref()
+                .expect("recipient")
+                .seal_topic_key(rng, Version::new(cx.version), &Topic::from(cx.topic), ss, k)
+                .map_err(f("seal failed"))?;
+            (enc.as_bytes().to_vec(), ct.as_bytes().to_vec())
+        }
+    })
+}
+
+fn k_open(env: &HpkeEnv, r: &RObj, prim: Prim, enc: &[u8], ct: &[u8], cx: &KCtx) -> Result<Secret, String> {
+    let enc = Encap::<CS>::from_bytes(enc).map_err(|e| format!("encap import: {e}"))?;
+    let group = GroupId::from_bytes(cx.group);
+    match (r, prim) {
+        (RObj::E(k), Prim::GroupKey) => {
+            let ct: EncryptedGroupKey<CS> = postcard::from_bytes(ct).map_err(|e| format!("ciphertext decode: {e}"))?;
+            k.open_group_key(&enc, ct, group).map(Secret::G).map_err(|e| e.to_string())
+        }
+        (RObj::E(k), Prim::PskSeed) => {
+            let ct: EncryptedPskSeed<CS> = postcard::from_bytes(ct).map_err(|e| format!("ciphertext decode: {e}"))?;
+            let (_, sp) = env.sender_e.as_ref().expect("sender");
+            k.open_psk_seed(&enc, ct, sp, &group).map(Secret::P).map_err(|e| e.to_string())
+        }
+        (RObj::R(k), Prim::TopicKey) => {
+            let ct = EncryptedTopicKey::<CS>::from_bytes(ct).map_err(|e| format!("ciphertext decode: {e}"))?;
+            let (_, sp) = env.sender_s.as_ref().expect("sender");
+            k.open_topic_key(Version::new(cx.version), &Topic::from(cx.topic), sp, &enc, &ct).map(Secret::T).map_err(|e| e.to_string())
+        }
+        _ => Err("harness: recipient object does not match the primitive".into()),
+    }
+}
+
+fn check_hpke_stateful(c: &KCase, info: &mut CaseInfo, prim: Prim) -> CheckResult {
+    if c.ctxs.is_empty() || c.secrets.is_empty() {
+        return Ok(());
+    }
+    let eng = engine(c.seed, 0x3702);
+    let rng = &eng;
+    let same_ctx = |a: &KCtx, b: &KCtx| if prim == Prim::TopicKey { a.version == b.version && a.topic == b.topic } else { a.group == b.group };
+    let canon: Vec<usize> = (0..c.ctxs.len()).map(|i| (0..=i).find(|&j| same_ctx(&c.ctxs[j], &c.ctxs[i])).unwrap_or(i)).collect();
+    let mk_recip = |rng: &Eng| if prim == Prim::TopicKey { RObj::R(ReceiverSecretKey::<CS>::new(rng)) } else { RObj::E(EncryptionKey::<CS>::new(rng)) };
+    let mut objs = vec![mk_recip(rng)];
+    let other = mk_recip(rng);
+    let mut env = HpkeEnv { recip_pk_e: None, recip_pk_r: None, sender_e: None, sender_s: None };
+    match &objs[0] {
+        RObj::E(k) => env.recip_pk_e = Some(k.public().map_err(f("public() failed"))?),
+        RObj::R(k) => env.recip_pk_r = Some(k.public().map_err(f("public() failed"))?),
+    }
+    match prim {
+        Prim::GroupKey => {}
+        Prim::PskSeed => {
+            let k = EncryptionKey::<CS>::new(rng);
+            let p = k.public().map_err(f("public() failed"))?;
+            env.sender_e = Some((k, p));
+        }
+        Prim::TopicKey => {
+            let k = SenderSecretKey::<CS>::new(rng);
+            let p = k.public().map_err(f("public() failed"))?;
+            env.sender_s = Some((k, p));
+        }
+    }
+    // the secrets, each created for (and, except group keys, always sealed under) its own context
+    let mut secrets = Vec::new();
+    let mut secret_ids = Vec::new();
+    for x in &c.secrets {
+        let cx = &c.ctxs[canon[idx(*x, c.ctxs.len())]];
+        let s = match prim {
+            Prim::GroupKey => Secret::G(GroupKey::<CS>::new(rng)),
+            Prim::PskSeed => Secret::P(PskSeed::<CS>::new(rng, &GroupId::from_bytes(cx.group))),
+            Prim::TopicKey => Secret::T(TopicKey::<CS>::new(rng, Version::new(cx.version), &Topic::from(cx.topic)).map_err(f("TopicKey::new failed"))?),
+        };
+        secret_ids.push(s.id().map_err(|e| Failure::new("id failed", e))?);
+        secrets.push(s);
+    }
+    let mut hist: Vec<Vec<usize>> = vec![Vec::new()];
+    let mut how: Vec<String> = vec!["original".into()];
+    let copy = |src: &RSrc, objs: &mut Vec<RObj>, how: &mut Vec<String>, info: &mut CaseInfo| -> CheckResult {
+        let (i, wrapped) = match src {
+            RSrc::Clone(i) => (idx(*i, objs.len()), false),
+            RSrc::Wrapped(i) => (idx(*i, objs.len()), true),
+        };
+        let new = match (&objs[i], wrapped) {
+            (RObj::E(k), false) => RObj::E(k.clone()),
+            (RObj::R(k), false) => RObj::R(k.clone()),
+            (RObj::E(k), true) => {
+                let w = eng.wrap(k.clone()).map_err(f("wrap failed"))?;
+                RObj::E(eng.unwrap::<EncryptionKey<CS>>(&w).map_err(f("unwrap of a wrapped key failed"))?)
+            }
+            (RObj::R(k), true) => {
+                let w = eng.wrap(k.clone()).map_err(f("wrap failed"))?;
+                RObj::R(eng.unwrap::<ReceiverSecretKey<CS>>(&w).map_err(f("unwrap of a wrapped key failed"))?)
+            }
+        };
+        let kind = if wrapped { "wrapped" } else { "clone" };
+        info.label(format!("copy_{kind}"));
+        how.push(format!("{kind} of #{i}"));
+        objs.push(new);
+        Ok(())
+    };
+    for s in &c.init {
+        copy(s, &mut objs, &mut how, info)?;
+        hist.push(Vec::new());
+    }
+
+    struct Item {
+        enc: Vec<u8>,
+        ct: Vec<u8>,
+        secret: usize,
+        ctx: usize,
+    }
+    let mut items: Vec<Item> = Vec::new();
+    let mut with_history = 0usize;
+    let describe = |o: usize, how: &[String], hist: &[Vec<usize>]| format!("recipient object #{o} ({}; earlier contexts {:?})", how[o], hist[o]);
+    let right_open = |o: usize, it: &Item, objs: &[RObj], how: &[String], hist: &mut Vec<Vec<usize>>, info: &mut CaseInfo, n: &mut usize| -> CheckResult {
+        let r = k_open(&env, &objs[o], prim, &it.enc, &it.ct, &c.ctxs[it.ctx]);
+        let sig = if o == 0 { "round trip failed" } else { "round trip failed on another object holding the same key" };
+        let got = match r {
+            Ok(s) => s,
+            Err(e) => return Err(Failure::new(sig, format!("{prim:?} secret #{} sealed under context #{}, opened by {} -> {e}", it.secret, it.ctx, describe(o, how, hist)))),
+        };
+        ensure!(got.id() == Ok(secret_ids[it.secret]), "round trip returned another secret", "{prim:?} secret #{} opened by {}", it.secret, describe(o, how, hist));
+        if let (Secret::P(a), Secret::P(b)) = (&got, &secrets[it.secret]) {
+            // the recovered seed derives the same PSKs as the original
+            let g = GroupId::from_bytes(c.ctxs[it.ctx].group);
+            let p = PolicyId::from_bytes(c.ctxs[it.ctx].group);
+            let xs: Vec<_> = a.clone().generate_psks(b"ctx", g, p, CipherSuiteId::all().iter().copied()).collect();
+            let ys: Vec<_> = b.clone().generate_psks(b"ctx", g, p, CipherSuiteId::all().iter().copied()).collect();
+            for (x, y) in xs.into_iter().zip(ys) {
+                let (x, y) = (x.map_err(f("psk failed"))?, y.map_err(f("psk failed"))?);
+                ensure!(x.raw_secret_bytes() == y.raw_secret_bytes(), "recovered PSK seed derives other PSKs", "secret #{}", it.secret);
+            }
+        }
+        if hist[o].iter().any(|h| *h != it.ctx) {
+            info.label("open_after_other_context");
+            if o != 0 {
+                *n += 1;
+            }
+        }
+        if o != 0 {
+            info.label("open_on_copy");
+        }
+        hist[o].push(it.ctx);
+        Ok(())
+    };
+
+    for op in &c.ops {
+        match op {
+            KOp::Seal { secret, ctx } => {
+                let si = idx(*secret, secrets.len());
+                let x = canon[idx(if prim == Prim::GroupKey { *ctx } else { c.secrets[si] }, c.ctxs.len())];
+                let (enc, ct) = k_seal(&env, rng, &secrets[si], &c.ctxs[x])?;
+                items.push(Item { enc, ct, secret: si, ctx: x });
+                info.label("op_seal");
+            }
+            KOp::Copy(s) => {
+                copy(s, &mut objs, &mut how, info)?;
+                hist.push(Vec::new());
+            }
+            _ if items.is_empty() => info.label("op_skipped_nothing_sealed"),
+            KOp::Open { recip, item } => {
+                let (o, it) = (idx(*recip, objs.len()), &items[idx(*item, items.len())]);
+                right_open(o, it, &objs, &how, &mut hist, info, &mut with_history)?;
+                info.label("op_open");
+            }
+            KOp::OpenWrongCtx { recip, item, ctx } => {
+                let (o, it, x) = (idx(*recip, objs.len()), &items[idx(*item, items.len())], canon[idx(*ctx, c.ctxs.len())]);
+                if x == it.ctx {
+                    right_open(o, it, &objs, &how, &mut hist, info, &mut with_history)?;
+                    info.label("op_open");
+                    continue;
+                }
+                let r = k_open(&env, &objs[o], prim, &it.enc, &it.ct, &c.ctxs[x]);
+                ensure!(r.is_err(), "open accepted a modified ciphertext or context", "{prim:?} sealed under context #{}, opened under #{x} by {}", it.ctx, describe(o, &how, &hist));
+                hist[o].push(x);
+                info.label("op_open_wrong_context_rejected");
+            }
+            KOp::OpenFlipped { recip, item, enc, flips } => {
+                let (o, it) = (idx(*recip, objs.len()), &items[idx(*item, items.len())]);
+                let (mut e, mut b) = (it.enc.clone(), it.ct.clone());
+                if !apply_flips(if *enc { &mut e } else { &mut b }, flips) || (e == it.enc && b == it.ct) {
+                    continue;
+                }
+                let r = k_open(&env, &objs[o], prim, &e, &b, &c.ctxs[it.ctx]);
+                ensure!(r.is_err(), "open accepted a modified ciphertext or context", "{prim:?} flipped {} {flips:?} opened by {}", if *enc { "encapsulation" } else { "ciphertext" }, describe(o, &how, &hist));
+                hist[o].push(it.ctx);
+                info.label("op_open_flipped_rejected");
+            }
+            KOp::OpenOtherRecipient { item } => {
+                let it = &items[idx(*item, items.len())];
+                let r = k_open(&env, &other, prim, &it.enc, &it.ct, &c.ctxs[it.ctx]);
+                ensure!(r.is_err(), "open accepted a modified ciphertext or context", "{prim:?}: another recipient key opened context #{}", it.ctx);
+                info.label("op_open_other_recipient_rejected");
+            }
+        }
+    }
+    // finally every recipient object must open every sealed secret under its own context
+    for it in &items {
+        for o in 0..objs.len() {
+            right_open(o, it, &objs, &how, &mut hist, info, &mut with_history)?;
+        }
+    }
+    if with_history >= 2 {
+        info.nontrivial();
+    }
+    Ok(())
+}
+
+fn kcase() -> impl Strategy<Value = KCase> {
+    let cx = (prop_oneof![3 => any::<[u8; 32]>(), 1 => Just([0u8; 32])], prop_oneof![2 => 0u32..4, 1 => any::<u32>()], any::<[u8; 16]>())
+        .prop_map(|(group, version, topic)| KCtx { group, version, topic });
+    let rsrc = || prop_oneof![any::<u16>().prop_map(RSrc::Clone), any::<u16>().prop_map(RSrc::Wrapped)];
+    let op = prop_oneof![
+        5 => (any::<u16>(), any::<u16>()).prop_map(|(secret, ctx)| KOp::Seal { secret, ctx }),
+        4 => (any::<u16>(), any::<u16>()).prop_map(|(recip, item)| KOp::Open { recip, item }),
+        2 => (any::<u16>(), any::<u16>(), any::<u16>()).prop_map(|(recip, item, ctx)| KOp::OpenWrongCtx { recip, item, ctx }),
+        1 => (any::<u16>(), any::<u16>(), any::<bool>(), flips()).prop_map(|(recip, item, enc, flips)| KOp::OpenFlipped { recip, item, enc, flips }),
+        1 => any::<u16>().prop_map(|item| KOp::OpenOtherRecipient { item }),
+        1 => rsrc().prop_map(KOp::Copy),
+    ];
+    (
+        any::<u64>(),
+        prop::collection::vec(cx, 2..=4),
+        prop::collection::vec(any::<u16>(), 2..=3),
+        prop::collection::vec(rsrc(), 1..=2),
+        (any::<u16>(), any::<u16>()),
+        prop::collection::vec(op, 2..=7),
+    )
+        .prop_map(|(seed, ctxs, secrets, init, (secret, ctx), mut ops)| {
+            ops.insert(0, KOp::Seal { secret, ctx });
+            KCase { seed, ctxs, secrets, init, ops }
+        })
+}
+
 pub fn run(ctx: &Ctx) -> ! {
     let mut rep = Report::new(ctx, "exploration");
     rep.assume("all keys, nonces and HPKE ephemeral keys come from a deterministic byte stream seeded by the case; the oracle does not depend on the values");
@@ -784,5 +1408,43 @@ pub fn run(ctx: &Ctx) -> ! {
         n_h,
         |c, i| check_hpke(c, i, Prim::TopicKey),
     );
+    let n_st = ctx.pick(2_000, 60_000);
+    let n_hst = ctx.pick(200, 6_000);
+    rep.assume("stateful parts: topic messages are always sealed under the version and topic the TopicKey was created for (contexts differ in the sender identity); PSK seeds and topic keys are always sealed under the group id resp. version/topic they were created for; group keys are sealed under any group id");
+    rep.explore(
+        "group_key_stateful",
+        "2..4 generated contexts (label, parent, author key), 2..4+ objects holding ONE group key (original, clone, copy recovered \
+         through seal_group_key/open_group_key, copy through Engine::wrap/unwrap; further copies may be taken mid-sequence), 4..14 \
+         operations in generated order on generated objects: seal under context i, open a stored ciphertext under its own context \
+         (must return the plaintext whatever object sealed it and whatever either object did before), open under another context / \
+         with flipped bytes / with another key (must fail); at the end every object opens every ciphertext under its own context. \
+         non-trivial = >=2 right-context opens on an object other than the sealing one where one of the two had been used with \
+         another context before",
+        tcase,
+        n_st,
+        |c, i| check_sym_stateful(c, i, true),
+    );
+    rep.explore(
+        "topic_key_stateful",
+        "same for TopicKey::seal_message/open_message; contexts = sender identity (2 encryption x 2 signing keys); copies = clone and \
+         seal_topic_key/open_topic_key",
+        tcase,
+        n_st,
+        |c, i| check_sym_stateful(c, i, false),
+    );
+    for (name, prim) in [("sealed_group_key_stateful", Prim::GroupKey), ("sealed_psk_seed_stateful", Prim::PskSeed), ("sealed_topic_key_stateful", Prim::TopicKey)] {
+        rep.explore(
+            name,
+            "2..3 secrets, 2..4 contexts (group id resp. version+topic), 2..3+ objects holding ONE recipient secret key (original, \
+             clone, Engine::wrap/unwrap copy), 3..8 operations in generated order: seal secret j (to the recipient's public key), open a \
+             stored sealing on a generated recipient object under its own context (must recover the secret with the same id; a PSK \
+             seed must derive the same PSKs), open under another context / flipped encapsulation or ciphertext / another recipient \
+             (must fail); at the end every recipient object opens every sealing. non-trivial = >=2 right-context opens on a copy \
+             that had been used with another context before",
+            kcase,
+            n_hst,
+            move |c, i| check_hpke_stateful(c, i, prim),
+        );
+    }
     rep.finish()
 }
